@@ -213,8 +213,13 @@ func c07PctOK(got string, value, total int64) bool {
 
 // checkCLI evaluates the direct oracles on the real outputs and compares with the Lean model.
 // Returns whether the case is non-trivial.
-func (run *c07Run) checkCLI(cs *c07Case, o *c07CLIOut) bool {
+func (run *c07Run) checkCLI(orig *c07Case, o *c07CLIOut) bool {
 	c := run.c
+	cs, serr := run.semantic(orig)
+	if serr != nil {
+		c.Res.HarnessError = "C07: " + serr.Error()
+		return false
+	}
 	c.Res.Hit("cli:" + cs.Stream + ":" + cs.Mode + map[bool]string{true: "+normalize", false: ""}[cs.Normalize])
 	c.Res.Hit("strategy:" + cs.Strategy)
 	if o == nil || o.Err != "" || o.ProtoAll == nil {
@@ -246,24 +251,24 @@ func (run *c07Run) checkCLI(cs *c07Case, o *c07CLIOut) bool {
 	if o.ProtoAll.RC != 0 {
 		c.Res.Hit("cli-error")
 		if cs.Normalize && strings.Contains(o.ProtoAll.Stderr, "incompatible sample types") && cs.Stream == "normalize-unaligned" {
-			c.Violation(sig("normalize/refuses-differing-sample-types"), "-normalize with a base whose sample types are ordered/united differently is refused instead of aligned: "+c07Trunc(o.ProtoAll.Stderr), cs)
+			c.Violation(sig("normalize/refuses-differing-sample-types"), "-normalize with a base whose sample types are ordered/united differently is refused instead of aligned: "+c07Trunc(o.ProtoAll.Stderr), orig)
 			return nt
 		}
 		if mcls == "err" {
 			c.Res.Hit("both-refuse")
 			return false
 		}
-		c.Violation(sig("cli/refused/"+cs.Mode), "pprof fails on a compatible profile tuple: "+c07Trunc(o.ProtoAll.Stderr), cs)
+		c.Violation(sig("cli/refused/"+cs.Mode), "pprof fails on a compatible profile tuple: "+c07Trunc(o.ProtoAll.Stderr), orig)
 		return nt
 	}
 	outP, err := profile.ParseData(o.ProtoAll.Stdout)
 	if err != nil {
-		c.Violation(sig("proto/unparsable"), "-proto output does not parse: "+err.Error(), cs)
+		c.Violation(sig("proto/unparsable"), "-proto output does not parse: "+err.Error(), orig)
 		return nt
 	}
-	act, actBase, err := c07Abstract(outP)
+	act, actBase, err := run.abstract(outP)
 	if err != nil {
-		c.Violation(sig("proto/foreign-content"), "-proto output contains something that is in no input: "+err.Error(), cs)
+		c.Violation(sig("proto/foreign-content"), "-proto output contains something that is in no input: "+err.Error(), orig)
 		return nt
 	}
 	if cs.Stream == "normalize-unaligned" {
@@ -271,7 +276,7 @@ func (run *c07Run) checkCLI(cs *c07Case, o *c07CLIOut) bool {
 		return nt
 	}
 	if mcls != "ok" {
-		c.Disagree(sig("model/fetch-"+mcls), "the model refuses a tuple pprof accepts: "+c07Trunc(model), "correspondence Combine.fetch ~ fetchProfiles", cs)
+		c.Disagree(sig("model/fetch-"+mcls), "the model refuses a tuple pprof accepts: "+c07Trunc(model), "correspondence Combine.fetch ~ fetchProfiles", orig)
 		return nt
 	}
 	mp := mr.tprof()
@@ -312,18 +317,18 @@ func (run *c07Run) checkCLI(cs *c07Case, o *c07CLIOut) bool {
 	}
 	want := c07CommonTypes(cs)
 	if strings.Join(outTypes, ",") != strings.Join(want, ",") {
-		violation(sig("types/not-common-in-first-order"), fmt.Sprintf("result sample types %v, want %v", outTypes, want), cs)
+		violation(sig("types/not-common-in-first-order"), fmt.Sprintf("result sample types %v, want %v", outTypes, want), orig)
 		return nt
 	}
 	for j, t := range act.Types {
 		if u, ok := c07Units[t.Unit]; !ok || u.fam != c07TypeFam(t.Type) {
-			violation(sig("types/unit-family"), fmt.Sprintf("result unit %q for %s", t.Unit, t.Type), cs)
+			violation(sig("types/unit-family"), fmt.Sprintf("result unit %q for %s", t.Unit, t.Type), orig)
 			return nt
 		}
 		if j < len(mp.Cols) {
 			u := c07Units[t.Unit]
 			if mp.Cols[j].Fam != u.fam || mp.Cols[j].Factor != u.factor {
-				c.Disagree(sig("model/unit"), fmt.Sprintf("column %s: result unit %q, model factor %d", t.Type, t.Unit, mp.Cols[j].Factor), "theorem commonUnit_finest / correspondence Combine.scaleProfiles ~ ScaleProfiles", cs)
+				c.Disagree(sig("model/unit"), fmt.Sprintf("column %s: result unit %q, model factor %d", t.Type, t.Unit, mp.Cols[j].Factor), "theorem commonUnit_finest / correspondence Combine.scaleProfiles ~ ScaleProfiles", orig)
 			}
 		}
 	}
@@ -342,11 +347,11 @@ func (run *c07Run) checkCLI(cs *c07Case, o *c07CLIOut) bool {
 				s = sig("scale/|v|>2^53")
 				what = "Scale(-1) goes through float64: values beyond 2^53 are not negated exactly, the difference keeps residue"
 			}
-			violation(s, what+": want {"+c07Trunc(c07WStr(expW))+"} got {"+c07Trunc(c07WStr(actW))+"}", cs)
+			violation(s, what+": want {"+c07Trunc(c07WStr(expW))+"} got {"+c07Trunc(c07WStr(actW))+"}", orig)
 		}
 		if strings.HasPrefix(cs.Strategy, "self-difference") && cs.Mode == "base" && okDirect && len(act.Samples) != 0 {
 			okDirect = false
-			violation(sig("self-difference/not-empty"), fmt.Sprintf("p - p has %d samples", len(act.Samples)), cs)
+			violation(sig("self-difference/not-empty"), fmt.Sprintf("p - p has %d samples", len(act.Samples)), orig)
 		}
 	}
 
@@ -362,10 +367,10 @@ func (run *c07Run) checkCLI(cs *c07Case, o *c07CLIOut) bool {
 		bad := func(what string, p *c07Proc) {
 			okDirect = false
 			if strings.Contains(what, "entry listed twice") {
-				violation(sig("cli/"+cs.Mode+"/entry-split-in-two"), "an entry that the inputs share by name is listed twice instead of summed — "+what+": "+c07Trunc(string(p.Stdout)), cs)
+				violation(sig("cli/"+cs.Mode+"/entry-split-in-two"), "an entry that the inputs share by name is listed twice instead of summed — "+what+": "+c07Trunc(string(p.Stdout)), orig)
 				return
 			}
-			violation(sig("cli/report-failed"), what+": "+c07Trunc(p.Stderr+string(p.Stdout)), cs)
+			violation(sig("cli/report-failed"), what+": "+c07Trunc(p.Stderr+string(p.Stdout)), orig)
 		}
 		if o.TopAll.RC != 0 {
 			bad("-top fails", o.TopAll)
@@ -428,7 +433,7 @@ func (run *c07Run) checkCLI(cs *c07Case, o *c07CLIOut) bool {
 					r := topAll.Rows[n]
 					if r.Flat != expFlat[n] || r.Cum != expCum[n] {
 						if okDirect {
-							violation(sig("cli/"+cs.Mode+"/top-entry"), fmt.Sprintf("-top entry %s: flat %d cum %d, sum of the individual reports: flat %d cum %d", n, r.Flat, r.Cum, expFlat[n], expCum[n]), cs)
+							violation(sig("cli/"+cs.Mode+"/top-entry"), fmt.Sprintf("-top entry %s: flat %d cum %d, sum of the individual reports: flat %d cum %d", n, r.Flat, r.Cum, expFlat[n], expCum[n]), orig)
 						}
 						okDirect = false
 						break
@@ -442,7 +447,7 @@ func (run *c07Run) checkCLI(cs *c07Case, o *c07CLIOut) bool {
 				for n, v := range expTr {
 					if trAll[n] != v {
 						if okDirect {
-							violation(sig("cli/"+cs.Mode+"/traces-entry"), fmt.Sprintf("-traces stack %q: %d, sum of the individual reports %d", n, trAll[n], v), cs)
+							violation(sig("cli/"+cs.Mode+"/traces-entry"), fmt.Sprintf("-traces stack %q: %d, sum of the individual reports %d", n, trAll[n], v), orig)
 						}
 						okDirect = false
 						break
@@ -467,12 +472,12 @@ func (run *c07Run) checkCLI(cs *c07Case, o *c07CLIOut) bool {
 					if baseTotal > 0 {
 						c.Res.Hit("diffbase-total-checked")
 						if topAll.Total != baseTotal {
-							violation(sig("diff_base/total-not-base-total"), fmt.Sprintf("total %d, report of the base alone has total %d", topAll.Total, baseTotal), cs)
+							violation(sig("diff_base/total-not-base-total"), fmt.Sprintf("total %d, report of the base alone has total %d", topAll.Total, baseTotal), orig)
 							okDirect = false
 						} else {
 							for n, r := range topAll.Rows {
 								if !c07PctOK(r.FlatPct, r.Flat, baseTotal) || !c07PctOK(r.CumPct, r.Cum, baseTotal) {
-									violation(sig("diff_base/percentage"), fmt.Sprintf("entry %s: flat %d (%s) cum %d (%s) of base total %d", n, r.Flat, r.FlatPct, r.Cum, r.CumPct, baseTotal), cs)
+									violation(sig("diff_base/percentage"), fmt.Sprintf("entry %s: flat %d (%s) cum %d (%s) of base total %d", n, r.Flat, r.FlatPct, r.Cum, r.CumPct, baseTotal), orig)
 									okDirect = false
 									break
 								}
@@ -489,12 +494,12 @@ func (run *c07Run) checkCLI(cs *c07Case, o *c07CLIOut) bool {
 			} else {
 				re := c07ParseTop(o.TopRe.Stdout)
 				if strings.Join(re.Lines, "\n") != strings.Join(topAll.Lines, "\n") {
-					violation(sig("proto-reopen/top-differs/"+cs.Mode), "saving with -proto and reopening changes the -top report: "+c07Trunc(strings.Join(re.Lines, " / "))+" vs "+c07Trunc(strings.Join(topAll.Lines, " / ")), cs)
+					violation(sig("proto-reopen/top-differs/"+cs.Mode), "saving with -proto and reopening changes the -top report: "+c07Trunc(strings.Join(re.Lines, " / "))+" vs "+c07Trunc(strings.Join(topAll.Lines, " / ")), orig)
 					okDirect = false
 				}
 				trRe, _ := c07ParseTraces(o.TrRe.Stdout)
 				if fmt.Sprint(trRe) != fmt.Sprint(trAll) {
-					violation(sig("proto-reopen/traces-differ/"+cs.Mode), "saving with -proto and reopening changes the -traces report", cs)
+					violation(sig("proto-reopen/traces-differ/"+cs.Mode), "saving with -proto and reopening changes the -traces report", orig)
 					okDirect = false
 				}
 			}
@@ -503,7 +508,7 @@ func (run *c07Run) checkCLI(cs *c07Case, o *c07CLIOut) bool {
 
 	// ---- -normalize: scaled source total equals the base total within #samples/2 ----
 	if cs.Normalize {
-		okDirect = run.checkNormalizeCLI(cs, act, violation) && okDirect
+		okDirect = run.checkNormalizeCLI(orig, cs, act, violation) && okDirect
 	}
 
 	// ---- model ----
@@ -519,26 +524,27 @@ func (run *c07Run) checkCLI(cs *c07Case, o *c07CLIOut) bool {
 	if cm != ca {
 		switch {
 		case pinnedExplains:
-			violation(c07SigScaleNDrop, "merged result {"+c07Trunc(ca)+"} misses weight of the repaired model {"+c07Trunc(cm)+"}", cs)
+			violation(c07SigScaleNDrop, "merged result {"+c07Trunc(ca)+"} misses weight of the repaired model {"+c07Trunc(cm)+"}", orig)
 		case tie:
 			c.Res.Hit("normalize-near-tie-skipped")
 		case okDirect:
-			c.Disagree(sig("model/fetch/"+cs.Mode), "merged result differs from the model: model {"+c07Trunc(cm)+"} pprof {"+c07Trunc(ca)+"}", "theorems combine_report_eq_sum, base_report_eq_difference / correspondence Combine.fetch ~ fetchProfiles", cs)
+			c.Disagree(sig("model/fetch/"+cs.Mode), "merged result differs from the model: model {"+c07Trunc(cm)+"} pprof {"+c07Trunc(ca)+"}", "theorems combine_report_eq_sum, base_report_eq_difference / correspondence Combine.fetch ~ fetchProfiles", orig)
 		}
 		return nt
 	}
-	if topAll != nil && idx >= 0 {
+	if topAll != nil && idx >= 0 && orig.Gran == "" {
 		var sb strings.Builder
 		fmt.Fprintf(&sb, "c07.report %d", idx)
 		c07TokProf(&sb, act.Samples, actBase)
-		fmt.Fprintf(&sb, " %d", len(c07LocFuncs))
-		for _, fs := range c07LocFuncs {
+		fmt.Fprintf(&sb, " %d", len(run.intern.locNodes))
+		for _, fs := range run.intern.locNodes {
 			fmt.Fprintf(&sb, " %d", len(fs))
 			for _, f := range fs {
 				fmt.Fprintf(&sb, " %d", f)
 			}
 		}
-		fmt.Fprintf(&sb, " %d", c07NFuncs)
+		nfn := len(run.intern.fnNames)
+		fmt.Fprintf(&sb, " %d", nfn)
 		rep := c.Drv.Ask(sb.String())
 		cls, rr := c07Reply(rep)
 		f := c07Factor(act.Types[idx].Unit)
@@ -546,11 +552,14 @@ func (run *c07Run) checkCLI(cs *c07Case, o *c07CLIOut) bool {
 		if cls != "ok" {
 			mism = "model report: " + c07Trunc(rep)
 		} else {
-			for n := 0; n < c07NFuncs && mism == ""; n++ {
+			for n := 0; n < nfn && mism == ""; n++ {
 				fl, cu := rr.int()*f, rr.int()*f
-				r := topAll.Rows[c07FuncName(n)]
+				if strings.HasPrefix(run.intern.fnNames[n], "\x00") {
+					continue
+				}
+				r := topAll.Rows[run.intern.fnNames[n]]
 				if r.Flat != fl || r.Cum != cu {
-					mism = fmt.Sprintf("%s: -top flat %d cum %d, spec flat %d cum %d", c07FuncName(n), r.Flat, r.Cum, fl, cu)
+					mism = fmt.Sprintf("%s: -top flat %d cum %d, spec flat %d cum %d", run.intern.fnNames[n], r.Flat, r.Cum, fl, cu)
 				}
 			}
 			if tot := rr.int() * f; mism == "" && tot != topAll.Total {
@@ -558,7 +567,7 @@ func (run *c07Run) checkCLI(cs *c07Case, o *c07CLIOut) bool {
 			}
 		}
 		if mism != "" && okDirect {
-			c.Disagree(sig("model/report"), mism, "theorem diffbase_total_spec / Spec figure = Σ over selected samples ~ -top", cs)
+			c.Disagree(sig("model/report"), mism, "theorem diffbase_total_spec / Spec figure = Σ over selected samples ~ -top", orig)
 		}
 	}
 	return nt
@@ -566,11 +575,11 @@ func (run *c07Run) checkCLI(cs *c07Case, o *c07CLIOut) bool {
 
 // checkNormalizeCLI: with -normalize every column whose source total is non-zero satisfies
 // |Σ(result)| = |Σ scaled − Σ base| ≤ #source samples / 2 (plus the float slack, < 1/2 here).
-func (run *c07Run) checkNormalizeCLI(cs *c07Case, act *c07Prof, violation func(string, string, any)) bool {
+func (run *c07Run) checkNormalizeCLI(orig, cs *c07Case, act *c07Prof, violation func(string, string, any)) bool {
 	c := run.c
 	srcs := make([]*profile.Profile, len(cs.Sources))
 	for i := range cs.Sources {
-		srcs[i] = c07Build(&cs.Sources[i], i+1)
+		srcs[i] = c07Build(&orig.Sources[i], i+1)
 	}
 	n := 0
 	var merged *profile.Profile
@@ -623,7 +632,7 @@ func (run *c07Run) checkNormalizeCLI(cs *c07Case, act *c07Prof, violation func(s
 		}
 		c.Res.Hit("normalize-bound-checked")
 		if 2*math.Abs(float64(got)) > float64(n)+2*slack {
-			violation("C07/normalize/total-off", fmt.Sprintf("column %s: scaled source total − base total = %d with %d source samples (base total %d, source total %d)", t.Type, got, n, baseSum, srcSum), cs)
+			violation("C07/normalize/total-off", fmt.Sprintf("column %s: scaled source total − base total = %d with %d source samples (base total %d, source total %d)", t.Type, got, n, baseSum, srcSum), orig)
 			ok = false
 		}
 	}
